@@ -219,6 +219,20 @@ def c13(tier, seed, t0):
                                  "sat answers are concretised and replayed through the real pipeline"])
 
 
+@register("C14")
+def c14(tier, seed, t0):
+    from harness import guard as H
+    res = R.run_pool(H.HNAME, H.chunks(tier), 150 if tier == "quick" else 1500, seed, tier,
+                     extra=dict(sample_rate=0.3 if tier == "quick" else 0.1, chunk_time=60 if tier == "quick" else 300))
+    agg = R.merge(res)
+    bounds = dict(base_name="length 1..4 (quick) / 1..6 (thorough) over [a-z0-9_.], first character [a-z_], every character symbolic",
+                  shapes=H.SHAPES, expected=H.EXPECT, file_types=[".h", ".c (no HEADER_PROT_* at all)"],
+                  outside="names starting with a digit or dot (their guard is not a C identifier); names longer than the bound; two mutations at once")
+    return R.report("C14", H.HNAME, tier, seed, agg, t0, bounds, functions=PIPE_FUNCS + [
+        "CheckPreprocessorProtection.run", "IsPreprocessorStatement.run", "PreProcessors.has_macro_defined", "File.__init__ (basename/splitext modelled on symbolic names)"],
+        assumptions=["independent oracle for the expected symbol: ASCII upper-casing and '.'->'_' as z3 definitions over fresh variables, + '_H'"])
+
+
 def main():
     ap = argparse.ArgumentParser()
     ap.add_argument("prop")
